@@ -164,7 +164,7 @@ pub fn run(ctx: &Ctx) -> i32 {
          distinct_nontrivial = distinct mutated files judged",
     );
     rep.assume("a `.word` list that continues on the following line is covered by its directive node");
-    let per_shard = ctx.tier.pick(6, 400);
+    let per_shard = ctx.tier.pick(50, 400);
     let acc = run_sharded(ctx, |shard| {
         let mut acc = Acc::new();
         for k in 0..per_shard {
